@@ -35,6 +35,7 @@ type Front struct {
 	LateForce      []int   `json:"late_force,omitempty"`     // after the first round of writes: force-import path LateForce[2k+1] into file LateForce[2k] (no declaration follows)
 	Rewrites       int     `json:"rewrites,omitempty"`       // extra rounds of writing every file at the end (the last round counts)
 	WriteOrder     []int   `json:"write_order,omitempty"`    // order in which the files are written at the end (permutation code)
+	SharedImporter bool    `json:"-"`                        // environment, not history: standard packages come from one importer shared by the builds of this process
 	CompleteEarly  bool    `json:"complete_early,omitempty"` // grouped type declarations are closed before their lazily loaded members get a type
 	XGoBuiltin     bool    `json:"xgo_builtin,omitempty"`    // XGo-style configuration: untyped big types, overloaded println, builtin-type methods
 	Faults         []Fault `json:"faults,omitempty"`
@@ -51,7 +52,7 @@ type Fault struct {
 
 const BuiltinPath = "github.com/goplus/gogen/internal/builtin"
 
-var FaultKinds = []string{"bti_call", "unsafe_ref", "unit_lit", "abort_return", "bigint_op", "discard_ref", "abort_stmt", "abort_init", "abort_endinit", "callex_err", "abort_header", "discard_reset", "vblock", "inline_closure"}
+var FaultKinds = []string{"generic_inst", "bti_call", "unsafe_ref", "unit_lit", "abort_return", "bigint_op", "discard_ref", "abort_stmt", "abort_init", "abort_endinit", "callex_err", "abort_header", "discard_reset", "vblock", "inline_closure"}
 
 // Env is per-process: export data located once with the real go command, corpus with
 // the results of the acceptance dry run.
@@ -60,6 +61,7 @@ type Env struct {
 	Corpus  map[string]*CorpusEntry
 	Paths   []string // admitted corpus packages
 	GoRoot  string
+	Shared  *imp.SharedGC // lazily created
 }
 
 type CorpusEntry struct {
@@ -72,6 +74,9 @@ type CorpusEntry struct {
 
 // DiscardPaths are packages referenced only by discarded operands (never otherwise used by
 // synthetic programs), so that a leaked import is attributable.
+// ExtraStd are standard packages the injected constructs import.
+var ExtraStd = []string{"sync/atomic"}
+
 var DiscardPaths = []string{"encoding/json", "encoding/hex", "container/list", "hash/fnv", "bufio", "io"}
 
 // LateForcePaths are force-imported after a first round of writes (std packages the
@@ -88,6 +93,7 @@ func NewEnv(corpus bool) (*Env, error) {
 	}
 	pkgs := append([]string{}, prog.StdImportPaths()...)
 	pkgs = append(pkgs, DiscardPaths...)
+	pkgs = append(pkgs, ExtraStd...)
 	if corpus {
 		pkgs = append(pkgs, prog.CorpusPaths...)
 	}
@@ -250,8 +256,17 @@ func (e *Env) BuildWith(p *prog.Program, f *Front, hooks *minicl.Hooks, onC func
 func (e *Env) build(p *prog.Program, f *Front, hooks *minicl.Hooks, ce *CorpusEntry, onC func(*minicl.Compiler)) *Result {
 	r := &Result{Files: map[string][]byte{}, WriteErr: map[string]string{}, FaultFired: map[string]int{}}
 	fset := token.NewFileSet()
+	var im *imp.Importer
+	if f.SharedImporter {
+		if e.Shared == nil {
+			e.Shared = e.Exports.NewSharedGC()
+		}
+		fset = e.Shared.Fset
+		im = e.Exports.NewImporterShared(e.Shared, p.Synthetics())
+	} else {
+		im = e.Exports.NewImporter(fset, p.Synthetics())
+	}
 	r.Fset = fset
-	im := e.Exports.NewImporter(fset, p.Synthetics())
 	r.Imp = im
 	var src []minicl.SrcFile
 	for _, sf := range p.Files {
@@ -497,14 +512,15 @@ func mod(v, n int) int {
 }
 
 type injector struct {
-	r     *Result
-	f     *Front
-	e     *Env
-	p     *prog.Program
-	plan  map[[2]int][]Fault
-	count map[[2]int]int
-	fired map[*Fault]bool
-	n     int
+	r       *Result
+	f       *Front
+	e       *Env
+	p       *prog.Program
+	plan    map[[2]int][]Fault
+	count   map[[2]int]int
+	fired   map[*Fault]bool
+	n       int
+	generic bool
 }
 
 func (in *injector) inject(c *minicl.Compiler, unit, stmt, depth int) {
@@ -646,6 +662,18 @@ func (in *injector) fire(c *minicl.Compiler, ft Fault) {
 		} else {
 			c.B.ResetStmt()
 		}
+	case "generic_inst":
+		// not a fault: an imported generic type instantiated with an alias declared in the
+		// package being built, used as the type of a package-level variable
+		if in.generic {
+			in.r.FaultFired[ft.Kind]--
+			return
+		}
+		in.generic = true
+		orig := c.Pkg.Import("sync/atomic").Ref("Pointer").Type()
+		alias := c.Pkg.AliasType("ZzCount", types.Typ[types.Int])
+		inst := c.Pkg.Instantiate(orig, []types.Type{alias})
+		c.Pkg.NewVar(token.NoPos, inst, "ZzHits")
 	case "bti_call":
 		// not a fault: a method of a builtin type registered by the front end (XGo configuration)
 		if !in.r.XGoBuiltin {
